@@ -3,6 +3,7 @@ package props
 // C09 — the pool talks to a host exactly while that host has a live connection.
 
 import (
+	"sort"
 	"context"
 	"fmt"
 	"math/big"
@@ -124,27 +125,35 @@ func c09Case(rt *rapid.T, rec *vt.Rec) {
 				got = append(got, nodeName(string(n.ID)))
 			}
 		}
+		// several hosts may have registered over one connection: what is compared is, per connection, how many
+		// whitelist instructions arrived against how many hosts are currently registered on it
 		var want, wantConns, gotConns []string
+		wantPer, gotPer := map[int]int{}, map[int]int{}
 		for i := 0; i < nHosts; i++ {
 			if c, ok := s.model.liveHost(s.agents[i].id.nodeID); ok {
 				want = append(want, s.agents[i].id.name)
-				wantConns = append(wantConns, fmt.Sprintf("%s@conn#%d", s.agents[i].id.name, c))
+				wantPer[c]++
 			}
 			for _, ac := range s.agents[i].conns {
 				if n := len(ac.svc.Calls()) - callsBefore[ac.id]; n > 0 {
-					gotConns = append(gotConns, fmt.Sprintf("%s@conn#%d", s.agents[i].id.name, ac.id))
+					gotPer[ac.id] = n
 					if !ac.open {
-						fail("%s: the pool called host %s on conn#%d, which is closed", label, s.agents[i].id.name, ac.id)
-					}
-					if n > 1 {
-						fail("%s: host %s got %d whitelist calls on conn#%d for one request", label, s.agents[i].id.name, n, ac.id)
+						fail("%s: the pool sent %d instruction(s) over conn#%d (opened by %s), which is closed", label, n, ac.id, s.agents[i].id.name)
 					}
 				}
 			}
 		}
-		logf("%s: peer request -> %v err=%v; instructed %v; model: live %v", label, got, err, gotConns, wantConns)
+		for c, n := range wantPer {
+			wantConns = append(wantConns, fmt.Sprintf("conn#%d x%d", c, n))
+		}
+		for c, n := range gotPer {
+			gotConns = append(gotConns, fmt.Sprintf("conn#%d x%d", c, n))
+		}
+		sort.Strings(wantConns)
+		sort.Strings(gotConns)
+		logf("%s: peer request -> %v err=%v; instructed %v; model: live %v on %v", label, got, err, gotConns, want, wantConns)
 		if !setEq(gotConns, wantConns) {
-			fail("%s: the pool instructed %v; hosts with a live most-recently-registered connection are %v", label, gotConns, wantConns)
+			fail("%s: the pool instructed %v; the live most-recently-registered connections of the hosts are %v", label, gotConns, wantConns)
 		}
 		if !setEq(got, want) {
 			fail("%s: peer request returned %v, the hosts with a live registered connection are %v (err=%v)", label, got, want, err)
@@ -154,8 +163,16 @@ func c09Case(rt *rapid.T, rec *vt.Rec) {
 		}
 	}
 	n := rapid.IntRange(3, 16).Draw(rt, "steps")
+	shared := false // some connection carries a host that did not open it: the directed race rules (written for one host per connection) are left out from then on
 	for k := 0; k < n; k++ {
-		op := rapid.SampledFrom([]string{"connect", "connect", "close", "close", "probe", "closeDuring", "reregDuring", "failedReconnect", "reconnectRace", "advance", "closeDuringConnect", "closeWithStoreFault", "closeWhileOwnRequest", "connectOnExisting", "connectOnExisting"}).Draw(rt, "op")
+		op := rapid.SampledFrom([]string{"connect", "connect", "close", "close", "probe", "closeDuring", "reregDuring", "failedReconnect", "reconnectRace", "advance", "closeDuringConnect", "closeWithStoreFault", "closeWhileOwnRequest", "connectOnExisting", "connectOnExisting", "connectOnForeign", "connectOnForeign"}).Draw(rt, "op")
+		if shared {
+			switch op {
+			case "connect", "close", "probe", "advance", "connectOnExisting", "connectOnForeign":
+			default:
+				op = rapid.SampledFrom([]string{"close", "probe", "connect", "connectOnForeign"}).Draw(rt, "opShared")
+			}
+		}
 		switch op {
 		case "closeWhileOwnRequest":
 			// a host's connection closes while a request that this host itself sent over it is still being served (its
@@ -307,6 +324,25 @@ func c09Case(rt *rapid.T, rec *vt.Rec) {
 				classes["register-again-on-current-connection"] = true
 			}
 			logf("host %s registers again on its open conn#%d (current before: conn#%d, live: %v)", s.agents[h].id.name, ac.id, cur, isLive)
+		case "connectOnForeign":
+			// a second host identity registers over a connection that another host opened (one agent process serving
+			// two nodes, or simply a valid sequence of signed requests): the connection now carries both hosts, and
+			// closing it ends the registration of every host whose most recent registration it holds
+			oc := openConns()
+			if len(oc) == 0 || nHosts < 2 {
+				continue
+			}
+			ac := rapid.SampledFrom(oc).Draw(rt, "foreignConn")
+			o := connOwner(ac)
+			h := (o + 1 + rapid.IntRange(0, nHosts-2).Draw(rt, "otherHost")) % nHosts
+			cur, isLive := s.model.liveHost(s.agents[h].id.nodeID)
+			s.model.connect(s.agents[h].id.nodeID, ac.id, true, "geth", "")
+			if err := s.connect(h, ac, true, "geth", ""); err != nil {
+				fail("host %s connects over conn#%d (opened by %s): %v", s.agents[h].id.name, ac.id, s.agents[o].id.name, err)
+			}
+			classes["second-identity-on-a-connection"] = true
+			shared = true
+			logf("host %s registers over conn#%d, opened by host %s (its current before: conn#%d, live: %v)", s.agents[h].id.name, ac.id, s.agents[o].id.name, cur, isLive)
 		case "close":
 			oc := openConns()
 			if len(oc) == 0 {
